@@ -28,6 +28,15 @@ call `queueInLoop` / `runInLoop` / `quit` again.  `dtbl t` is what the destructi
 returns (`Sub.bury`).  A task started by the pipe's read callback is a plain function call: no functor object.  Not
 modelled: the destruction of functors that are still queued when the `EventLoop` itself is destroyed (they are
 destroyed unexecuted inside `~EventLoop`).
+
+**`loop()` may be entered again.**  In the plain scenario the owner's program goes on after `loop()` has returned:
+`again` is the list of its further segments; each segment is run by the owner thread outside `loop()` (exactly like
+`pre`: phase `pre`, `looping_ = false`), after which `loop()` is called again on the same object — the code supports
+that: `quit_` is re-armed when `loop()` returns.  A **run** of `loop()` is the stretch from one `loop:entry` to the next
+`returned`.  `appendOrder` / `executed` / `pending` / `ev` are properties of the loop object and go on across runs; the
+ghosts `qreq`, `selfQuit`, `quitMark`, `retMark` speak about ONE run (the current one, or — in phase `returned` — the
+one that has just ended) and are re-initialised by the silent step that starts the next segment (`relaunch`): a
+`quit()` whose flag store came after `loop()` had returned is a request to the next run.
 -/
 namespace MuduoVerif.Loop
 open MuduoVerif.Gen.Loop
@@ -122,6 +131,8 @@ structure St where
   active : List Item
   batch : List TaskId                -- the local vector `functors`, not yet executed part
   final : Bool                       -- the drain in progress is the one after the `while`
+  again : List (List Sub)            -- plain scenario: what the owner does after loop() returned, segment by segment,
+                                     -- each followed by another call of loop()
   corpses : List TaskId              -- functor objects of the batch that have run and still sit in the local vector
                                      -- (those whose destruction does something: `dtbl t ≠ []`), in vector order
   burying : Bool                     -- the batch has run and its functor objects are being destroyed
@@ -130,10 +141,11 @@ structure St where
   -- ghosts
   appendOrder : List TaskId          -- every functor ever appended, in mutex order
   executed : List TaskId             -- functors taken from a batch and started, in order
-  qreq : Bool                        -- some quit() stored the flag
-  selfQuit : Bool                    -- quit() was called on the loop thread
-  quitMark : Option Nat              -- appendOrder.length at the first flag store
-  retMark : Option Nat               -- appendOrder.length when loop() returned (at its last test of the queue)
+  qreq : Bool                        -- some quit() stored the flag (for this run of loop(), see `relaunch`)
+  selfQuit : Bool                    -- quit() was called on the loop thread (this run)
+  quitMark : Option Nat              -- appendOrder.length at the first flag store of this run (a store made between
+                                     -- two runs counts at the relaunch)
+  retMark : Option Nat               -- appendOrder.length when this run of loop() returned (at its last test of the queue)
   uafDtor : Bool                     -- the destructor touched a destroyed loop
   uafUser : Bool                     -- a user call touched a destroyed loop (outside the property)
   wrongThread : Bool                 -- a task body started on a thread other than the loop thread
@@ -209,6 +221,14 @@ def busy (s : St) : Bool := s.lpc != .idle || !s.stack.isEmpty
 def enterLoop (s : St) : St :=
   { s with looping := true, phase := .entered, out := some (.point "loop:entry") }
 
+/-- plain scenario, `loop()` has returned and the owner's program goes on: the next segment starts (it runs outside
+`loop()`, like `pre`; `loop()` is entered again when it ends).  The per-run ghosts start afresh: a flag that is set now
+was stored after `loop()` returned (the return re-armed it) and is a request to the coming run, made "now". -/
+def relaunch (s : St) (seg : List Sub) (rest : List (List Sub)) : St :=
+  { s with again := rest, phase := .pre, final := false, stack := if seg.isEmpty then [] else [seg],
+           qreq := s.quit, selfQuit := false,
+           quitMark := if s.quit then some s.appendOrder.length else none, retMark := none, out := none }
+
 /-- one step of the loop thread; `fd` = what `loop()` does with the functor queue after its `while`, `bd` = the functor
 objects of a batch are destroyed before `callingPendingFunctors_` is reset (the code's own shape is `finalDrain`,
 `batchDestroyedBeforeReset`, see `stepLoop`; the parameters let the theorems also speak about the other shapes) -/
@@ -273,7 +293,9 @@ def stepLoopG (fd : FinalDrain) (bd : Bool) (s : St) : St :=
       else { s with loopPtr := false, alive := false, phase := .dead, finished := finishSets,
                     waiting := if finishSets && finishNotifies then false else s.waiting,
                     out := some .destroyed }
-    else { s with out := none }
+    else match s.again with
+      | seg :: rest => relaunch s seg rest
+      | [] => { s with out := none }
   | .dead => { s with out := none }
 
 /-- the loop thread's step with the code's own order of "destroy the batch" and "reset the flag" -/
@@ -394,7 +416,7 @@ def loopEnabled (s : St) : Bool :=
   | .unborn | .dead => false
   | .pre => busy s || !(s.elt && s.mtx)
   | .polling => pollReady s
-  | .returned => s.elt && !(clearLocks && s.mtx)
+  | .returned => if s.elt then !(clearLocks && s.mtx) else !s.again.isEmpty
   | _ => true
 
 def otherEnabled (s : St) (k : Nat) : Bool :=
@@ -411,21 +433,23 @@ def enabled (s : St) (k : Nat) : Bool := if k = s.L then loopEnabled s else othe
 
 /-- thread `k` has nothing left to do (as opposed to: is blocked) -/
 def finished (s : St) (k : Nat) : Bool :=
-  if k = s.L then (if s.elt then s.phase == .dead || s.phase == .unborn else s.phase == .returned)
+  if k = s.L then (if s.elt then s.phase == .dead || s.phase == .unborn else s.phase == .returned && s.again.isEmpty)
   else (s.thr k).pc == .idle && (s.thr k).prog.isEmpty
 
 /-! ## initial states -/
 
-/-- plain scenario: T0 owns the loop (constructed already), runs `pre`, then calls `loop()`;
+/-- plain scenario: T0 owns the loop (constructed already), runs `pre`, then calls `loop()`; whenever `loop()` has
+returned it runs the next segment of `again` and calls `loop()` again (`again` is ignored in the other scenario);
 `progs k` is the program of foreign thread `k ≥ 1`.
 EventLoopThread scenario: T0 runs `progs 0` (startLoop … destroy), T1 is the loop thread whose
 init callback runs `pre`.  `tbl t` / `dtbl t`: the body of task `t` / of the destructor of what its functor owns. -/
-def init (elt wakeLast : Bool) (tbl dtbl : TaskId → List Sub) (pre : List Sub) (progs : Nat → List Sub) : St :=
+def init (elt wakeLast : Bool) (tbl dtbl : TaskId → List Sub) (pre : List Sub) (again : List (List Sub))
+    (progs : Nat → List Sub) : St :=
   { elt := elt, wakeLast := wakeLast, tbl := tbl, dtbl := dtbl,
     alive := !elt, pending := [], calling := false, looping := false, quit := false, ev := 0, ioReady := [],
     loopPtr := false, mtx := false, waiting := false, finished := false,
     phase := if elt then .unborn else .pre, lpc := .idle, stack := if pre.isEmpty then [] else [pre],
-    active := [], batch := [], final := false, corpses := [], burying := false,
+    active := [], batch := [], final := false, again := again, corpses := [], burying := false,
     thr := fun k => { pc := .idle, prog := progs k },
     appendOrder := [], executed := [], qreq := false, selfQuit := false, quitMark := none, retMark := none,
     uafDtor := false, uafUser := false, wrongThread := false, out := none }
